@@ -5,7 +5,7 @@ import c07
 RULE = ("the C07 case set (reference-encoded data through every filter with a bounded decoder, chains, predictors, LZW boundary lengths) "
         "and malformed/random data, each decoded by PdfStream::decode and by PdfStream::decode_with_limit / filters::decode_stream_with_limit "
         "for the limits {0, 1, |r|-1, |r|, |r|+1, 2|r|, 2^63, peak-1, peak, peak+1} (peak = largest intermediate buffer of the reference decoding). "
-        "Judged in Coq: result within the limit; for reference encodings agreement with the unbounded result whenever peak <= limit; ceiling. "
+        "Channel inner: the crate-private _with_limit decoder of the first filter (hook verif_decode_with_limit) on the same data and limits. Judged in Coq: result within the limit; for reference encodings agreement with the unbounded result whenever peak <= limit; ceiling. "
         "non-trivial = reference-encoded non-empty data through at least one filter; distinct by case text")
 
 
@@ -21,4 +21,4 @@ def run(r):
         c07.regen()
     except Exception as e:
         r.proof_broken.append("translator gen_filters failed: %s" % e)
-    return standard(r, "c08", ["theories/C07/Proofs.vo"], ["theories/C07/Check.vo"], ["bounded"], classify=classify)
+    return standard(r, "c08", ["theories/C07/Proofs.vo"], ["theories/C07/Check.vo"], ["bounded", "inner"], classify=classify)
